@@ -192,6 +192,11 @@ class Logix( Message_Router ):
         assert type( index ) is tuple and len( index ) == 1, \
             "Unsupported/Multi-dimensional index: %s" % index
         siz			= attribute.parser.struct_calcsize
+        if ( data.service in (self.WR_TAG_RPY, self.WR_FRG_RPY)
+             and data[context].get( 'type', STRING.tag_type ) < STRING.tag_type ):
+            # The byte offset of a write counts elements of the (basic) type it transmits, which may
+            # be narrower than the tag's (eg. SINT data written into a DINT tag).
+            siz			= typed_data.datasize( data[context].type )
         off			= 0
         if data.service in (self.RD_FRG_RPY, self.WR_FRG_RPY):
             off			= data[context].get( 'offset' ) or 0 # nonexistent/None/0 --> 0
@@ -236,6 +241,9 @@ class Logix( Message_Router ):
         else:
             endadv		= len( data[context].data )
             endmax		= beg + endadv
+            assert offremains == 0, \
+                "Attribute %s write at offset %d begins within an element of %d bytes" % (
+                    attribute, off, siz )
             assert endmax <= endactual, \
                 "Attribute %s capacity exceeded; writing %d elements beginning at index %d" % (
                     attribute, len( data[context].data ), beg )
